@@ -13,6 +13,10 @@
   Scope: the identities hold WHILE `shutdown()` has not been called (`s.shutting = false`).  `shutdown()`
   resets the statistics but leaves the pool's buffers as they are (`shutdownFinish`), so afterwards
   `hits = buffered + accessAdded + accessDropped` is void; nothing is claimed there (see `C15_shutdown_voids`).
+
+  At ACTION granularity (LayerB/Records.lean, imported here): `C15_layerB_*`; a hit of `get`, `get_ref` or of one key of
+  a multi-key read is "in flight" between its `store.get` and its `pool.add` (`inFlightReads`), and contributes exactly
+  one record (`C15_layerB_record_step`, `C15_layerB_mget_record_step`).
 -/
 import CachedProofs.Lemmas.StatsInv
 import CachedProofs.LayerB.Records
